@@ -16,9 +16,16 @@ Names are `List Char` (the property is about strings: `str.lstrip`), payloads ar
 harness (`atom 0` = `None`); `fused` is the payload a fusion callback builds from two payloads.
 Python exceptions are `Except Err`.
 
-The model mirrors the code AFTER the four `fix:` commits of C11 (get_output before getattr in
+The model mirrors the code AFTER the `fix:` commits of C11 (get_output before getattr in
 `__transform_output`, positional-only node parameter of the callbacks, `removeprefix` instead of
-`lstrip` in `Splicer.graph`, leaves of an expanded sink kept by `_Expander.graph`).
+`lstrip` in `Splicer.graph`, leaves of an expanded sink kept by `_Expander.graph`, `Splicer` copying the
+sub-graph's nodes instead of renaming / re-wiring them in place — so that a sub-graph is a VALUE: handing
+out one `Graph` object for several nodes is the same as handing out fresh copies).
+
+Appended below the original model: the splice in closed form (`splicedNode`, `leafOf`, `expandOK`), the
+traversal loop of `Transformer.transform` itself (`travLoop`, `visitOrder`, `reorder`, `asVisited`),
+`Splicer` subclasses with overridden `splice_source` / `splice_sink` (`SpliceFns`, `expandGraphW`), fusion
+callbacks that answer by mutating `current` (`FuseFuncM`, `fuseGraphM`), `Graph.__add__` / `join_namespaced`.
 -/
 namespace EkwVerif.Graph
 
@@ -608,5 +615,327 @@ def inlineFuse (accept : Node → Name → Node → Name → Bool) : FuseFunc :=
   else some { name := cur.name ++ ['+'] ++ parent.name, outputs := cur.outputs,
               payload := .fused cur.payload cin parent.payload pout (parent.inputs.map (·.1)) parent.outputs,
               inputs := kept ++ taken }
+
+/-! ## expand.py: the splice in closed form (specification of what `Splicer` builds) -/
+
+/-- `output_map.get(o, o)`: the name of the sub-graph sink selected for output `o` of the expanded node. -/
+def leafName (e : Expansion) (o : Name) : Name :=
+  match e.outputMap with
+  | none => o
+  | some om => (om.lookup o).getD o
+
+/-- Inputs of a sub-graph node re-pointed into the store: sub-graph node `j` lives at `base + j`. -/
+def shiftIns (base : Nat) (ins : List (Name × Ref)) : List (Name × Ref) :=
+  ins.map fun x => (x.1, (base + x.2.1, x.2.2))
+
+/-- What `Splicer` (default `splice_source` / `splice_sink`) makes of sub-graph node `m` when the
+sub-graph's nodes are stored from index `base` on: the name is prefixed; a source named in
+`Splicer.inputs` becomes a processor with the single input `input` connected to the mapped `Output` of
+the parent graph; a sink whose name is a value of `Splicer.outputs` becomes a processor with a default
+output; every other node keeps outputs and wiring (inside the sub-graph). -/
+def splicedNode (c : SplicerCfg) (base : Nat) (m : Node) : Node :=
+  if m.isSource then
+    match c.inputs.lookup m.name with
+    | none => { m with name := prefixed c.name m.name }
+    | some r => { name := prefixed c.name m.name, outputs := m.outputs, payload := m.payload, inputs := [(inputName, r)] }
+  else if m.isSink && (mapValues c.outputs).contains m.name then
+    { name := prefixed c.name m.name, outputs := [defaultOutput], payload := m.payload, inputs := shiftIns base m.inputs }
+  else { m with name := prefixed c.name m.name, inputs := shiftIns base m.inputs }
+
+/-- `Splicer.inputs` in closed form: all the node's (transformed) inputs without an input map,
+`{source: inputs[mapped]}` with one. -/
+def cfgInputs (inputs : List (Name × Ref)) : Option (List (Name × Name)) → List (Name × Ref)
+  | none => inputs
+  | some im => im.filterMap fun x => (inputs.lookup x.2).map fun r => (x.1, r)
+
+/-- The input NAME of the expanded node a sub-graph source called `s` is connected to, if any. -/
+def srcInput (inames : List Name) (im : Option (List (Name × Name))) (s : Name) : Option Name :=
+  match im with
+  | none => if inames.contains s then some s else none
+  | some im => im.lookup s
+
+/-- the last element satisfying `p` (a later `leaves[sname] = s` overwrites an earlier one) -/
+def lastWith (p : Nat → Bool) : List Nat → Option Nat → Option Nat
+  | [], acc => acc
+  | t :: rest, acc => lastWith p rest (if p t then some t else acc)
+
+/-- The sub-graph sink (index into `e.sub.nodes`) that ends up as the leaf for output `o`. -/
+def leafOf (e : Expansion) (o : Name) : Option Nat :=
+  lastWith (fun q => nameAt e.sub.nodes q == leafName e o) e.sub.sinks none
+
+/-- Output `o` of the expanded node can be consumed: the selected leaf exists among the sub-graph's
+sinks and its spliced copy has a default output (it is a proper sink, which `splice_sink` gives one,
+or it declares one itself). -/
+def leafOK (e : Expansion) (o : Name) : Bool :=
+  match leafOf e o with
+  | none => false
+  | some q =>
+    match e.sub.nodes[q]? with
+    | none => false
+    | some mq => (!mq.isSource && mq.isSink) || mq.outputs.contains defaultOutput
+
+/-- The expander's answer `e` for node `n` is well formed: the sub-graph is a graph (built with
+`Node(...)`), and an explicit input map only names inputs the node has (`KeyError` otherwise). -/
+def nodeExpOK (n : Node) (e : Expansion) : Bool :=
+  decide (WFNodes e.sub.nodes) && e.sub.sinks.all (· < e.sub.nodes.length) &&
+  match e.inputMap with
+  | none => true
+  | some im => im.all fun x => (n.inputs.map (·.1)).contains x.2
+
+/-- The (decidable) domain of `expand_graph`: every answer of the expander is well formed and every
+consumed output of an expanded node selects a usable leaf. -/
+def expandOK (ex : Node → Option Expansion) (ns : List Node) : Bool :=
+  ns.all (fun n => match ex n with | none => true | some e => nodeExpOK n e) &&
+  ns.all (fun m => m.inputs.all fun x =>
+    match ns[x.2.1]? with
+    | none => true
+    | some pj => match ex pj with | none => true | some e => leafOK e x.2.2)
+
+/-- The names `expand_graph` gives the nodes that replace node `n`. -/
+def expNames (ex : Node → Option Expansion) (n : Node) : List Name :=
+  match ex n with
+  | none => [n.name]
+  | some e => e.sub.nodes.map fun m => prefixed n.name m.name
+
+/-! ## transform.py: the traversal loop of `Transformer.transform` itself
+
+`while todo:` over a stack of node objects.  Here the object graph is a node list in ANY order in
+which inputs refer to earlier entries (e.g. the order in which the `Node(...)` calls were made);
+the loop computes the order in which nodes are finished (handed to the callbacks). -/
+
+/-- `for iname, isrc in node.inputs.items(): if isrc.parent not in done: ... break` -/
+def firstUndone (done : List Nat) : List (Name × Ref) → Option Nat
+  | [] => none
+  | x :: rest => if done.contains x.2.1 then firstUndone done rest else some x.2.1
+
+/-- One iteration of `while todo:`; state = (`todo`, top of the stack first; finished nodes in
+finishing order). -/
+def travStep (ns : List Node) (st : List Nat × List Nat) : List Nat × List Nat :=
+  match st.1 with
+  | [] => st
+  | top :: rest =>
+    if st.2.contains top then (rest, st.2)                   -- `if node in done: todo.pop(); continue`
+    else
+      match ns[top]? with
+      | none => (rest, st.2)                                 -- not constructible
+      | some n =>
+        match firstUndone st.2 n.inputs with
+        | some p => (p :: top :: rest, st.2)                 -- `todo.append(inode); complete = False; break`
+        | none => (rest, st.2 ++ [top])                      -- `done[node] = transformed; todo.pop()`
+
+/-- The loop, with a bound on the number of iterations. -/
+def travLoop (ns : List Node) : Nat → List Nat × List Nat → Option (List Nat)
+  | 0, st => if st.1.isEmpty then some st.2 else none
+  | fuel + 1, st => if st.1.isEmpty then some st.2 else travLoop ns fuel (travStep ns st)
+
+/-- `todo = [sink for sink in graph.sinks]`, top = `todo[-1]`. -/
+def travInit (g : Graph) : List Nat × List Nat := (g.sinks.reverse, [])
+
+/-- number of iterations that always suffices (`c11_traverse_terminates`) -/
+def travBound (g : Graph) : Nat := g.sinks.length + 2 * g.nodes.length
+
+/-- The order in which `Transformer.transform` finishes the nodes of `g`. -/
+def visitOrder (g : Graph) : Option (List Nat) := travLoop g.nodes (travBound g) (travInit g)
+
+/-- The graph as the callbacks see it: nodes listed in finishing order `ord`, references re-indexed. -/
+def reorder (g : Graph) (ord : List Nat) : Graph :=
+  { nodes := ord.map fun i =>
+      match g.nodes[i]? with
+      | none => { name := [], outputs := [], payload := nonePayload, inputs := [] }
+      | some n => { n with inputs := n.inputs.map fun x => (x.1, (ord.idxOf x.2.1, x.2.2)) },
+    sinks := g.sinks.map ord.idxOf }
+
+/-- The graph as the callbacks of a `Transformer` see it: the traversal loop decides the order.  (`none`
+does not occur on well-formed graphs, `c11_traverse_terminates`.) -/
+def asVisited (g : Graph) : Graph :=
+  match visitOrder g with
+  | some ord => reorder g ord
+  | none => g
+
+/-- `expand_graph` from the graph AS LISTED (any creation order), sub-graphs included: both traversals
+(`_Expander.transform`, and `Splicer.transform` per expanded node) are the model's own. -/
+def expandGraphListed (ex : Node → Option Expansion) (g : Graph) : Except Err Graph :=
+  expandGraph (fun n => (ex n).map fun e => { e with sub := asVisited e.sub }) (asVisited g)
+
+/-! ## expand.py: `Splicer` subclasses overriding `splice_source` / `splice_sink`
+
+Overrides are restricted (as fusion callbacks are) to functions of their arguments that answer with a
+FRESH `Node` carrying the given name and connected only to what they are given. -/
+
+/-- `src name s` = (outputs, payload, input names ALL connected to `input`) of the node that replaces the
+source `s`;  `snk name s keys` = (outputs, payload, selection) of the node that replaces the sink `s` whose
+transformed inputs are named `keys`: `none` = `**inputs` as given, `some sel` = the inputs
+`{new: inputs[given] for (new, given) in sel}`. -/
+structure SpliceFns where
+  src : Name → Node → List Name × Payload × List Name
+  snk : Name → Node → List Name → List Name × Payload × Option (List (Name × Name))
+
+/-- the node `splice_source(name, s, input)` answers with -/
+def mkSource (f : SpliceFns) (name : Name) (s : Node) (r : Ref) : Node :=
+  { name := name, outputs := (f.src name s).1, payload := (f.src name s).2.1,
+    inputs := (f.src name s).2.2.map fun k => (k, r) }
+
+/-- the node `splice_sink(name, s, **inputs)` answers with -/
+def mkSink (f : SpliceFns) (name : Name) (s : Node) (ins : List (Name × Ref)) : Node :=
+  { name := name, outputs := (f.snk name s (ins.map (·.1))).1, payload := (f.snk name s (ins.map (·.1))).2.1,
+    inputs := cfgInputs ins (f.snk name s (ins.map (·.1))).2.2 }
+
+/-- the methods of `Splicer` itself -/
+def defaultSplice : SpliceFns where
+  src := fun _ s => (s.outputs, s.payload, [inputName])
+  snk := fun _ s _ => ([defaultOutput], s.payload, none)
+
+/-- `Splicer` with overridden `splice_source` / `splice_sink` -/
+def splicerW (f : SpliceFns) (c : SplicerCfg) : Transformer (List Node) Nat Ref where
+  source := some fun out n =>
+    match c.inputs.lookup n.name with
+    | none => .ok (out ++ [{ n with name := prefixed c.name n.name }], out.length)
+    | some r => .ok (out ++ [mkSource f (prefixed c.name n.name) n r], out.length)
+  processor := some fun out n ins =>
+    .ok (out ++ [{ n with name := prefixed c.name n.name, inputs := ins }], out.length)
+  sink := some fun out n ins =>
+    if (mapValues c.outputs).contains n.name then .ok (out ++ [mkSink f (prefixed c.name n.name) n ins], out.length)
+    else .ok (out ++ [{ n with name := prefixed c.name n.name, inputs := ins }], out.length)
+  output := nodeOutput
+
+/-- `_Expander.node` with the splicer factory `lambda *a: MySplicer(*a)` -/
+def expandNodeW (f : SpliceFns) (ex : Node → Option Expansion) (out : List Node) (n : Node) (ins : List (Name × Ref)) :
+    Except Err (List Node × XNode) :=
+  match ex n with
+  | none => .ok (out ++ [{ n with inputs := ins }], .node out.length)
+  | some e =>
+    match splicerInit n.name ins e.inputMap n.outputs e.outputMap with
+    | .error err => .error err
+    | .ok c =>
+      match transform (splicerW f c) (splicerFin c) out e.sub with
+      | .error err => .error err
+      | .ok r => .ok (r.1, .sub r.2)
+
+def expanderW (f : SpliceFns) (ex : Node → Option Expansion) : Transformer (List Node) XNode Ref where
+  node := some (expandNodeW f ex)
+  output := fun out t o =>
+    match t with
+    | .node i => nodeOutput out i o
+    | .sub sg => subgraphOutput out sg o
+
+/-- `expand_graph(expand, graph, splicer=MySplicer)` -/
+def expandGraphW (f : SpliceFns) (ex : Node → Option Expansion) (g : Graph) : Except Err Graph :=
+  transform (expanderW f ex) expandFin [] g
+
+/-- the closed form of the splice with overrides (`splicedNode` for `defaultSplice`) -/
+def splicedNodeW (f : SpliceFns) (c : SplicerCfg) (base : Nat) (m : Node) : Node :=
+  if m.isSource then
+    match c.inputs.lookup m.name with
+    | none => { m with name := prefixed c.name m.name }
+    | some r => mkSource f (prefixed c.name m.name) m r
+  else if m.isSink && (mapValues c.outputs).contains m.name then
+    mkSink f (prefixed c.name m.name) m (shiftIns base m.inputs)
+  else { m with name := prefixed c.name m.name, inputs := shiftIns base m.inputs }
+
+/-! the `Splicer` subclasses the correspondence check uses -/
+
+def wrapPayload (d : Nat) : Payload → Payload
+  | .atom n => .atom (n + d)
+  | p => p
+
+/-- `TapSplicer`: a replaced source declares an extra output `tap`, carries a wrapped payload and is connected to the
+node's input TWICE (`src=input, ctl=input`); a replaced sink declares `0` and `aux`, carries a wrapped payload and
+renames every input `k` to `k_`. -/
+def tapSplice : SpliceFns where
+  src := fun _ s => (if s.outputs.contains "tap".toList then s.outputs else s.outputs ++ ["tap".toList],
+                     wrapPayload 1000 s.payload, ["src".toList, "ctl".toList])
+  snk := fun _ s keys => ([defaultOutput, "aux".toList], wrapPayload 2000 s.payload, some (keys.map fun k => (k ++ ['_'], k)))
+
+/-- `FirstSplicer`: default `splice_source`; a replaced sink keeps only its first input. -/
+def firstSplice : SpliceFns where
+  src := defaultSplice.src
+  snk := fun _ s keys => ([defaultOutput], s.payload, some (match keys with | [] => [] | k :: _ => [(k, k)]))
+
+/-! ## fuse.py: callbacks that answer by MUTATING `current` and returning it
+
+`FuseFunc` covers callbacks that answer with a fresh node.  A callback may also change `current` (name,
+payload, inputs) in place and return it; `_FuseTransformer.node` then keeps working on the same object
+(`result = fused`), and — because `any_fused` is set — leaves the inputs as the callback set them.  The
+difference to a fresh answer is object identity: no stale copy of the original node stays behind, and the
+original inputs of LATER nodes (which the callback is shown) point to the mutated object. -/
+
+structure FuseAns where
+  node : Node          -- the content of the answer
+  inplace : Bool       -- `true`: `current` itself, mutated; `false`: a fresh node
+deriving Repr
+
+abbrev FuseFuncM := Node → Name → Node → Name → Option FuseAns
+
+/-- loop state: `cur` = content of `result`, `fused` = `any_fused`, `selfc` = content of the ORIGINAL node object,
+`isSelf` = `result is node` -/
+structure FuseLoopSt where
+  cur : Node
+  fused : Bool
+  selfc : Node
+  isSelf : Bool
+
+def fuseLoopM (func : FuseFuncM) (s : FuseSt) : List (Name × Ref) → FuseLoopSt → FuseLoopSt
+  | [], acc => acc
+  | x :: rest, acc =>
+    if s.cnt.getD x.2.1 0 > 1 then fuseLoopM func s rest acc
+    else
+      match s.out[x.2.1]? with
+      | none => fuseLoopM func s rest acc
+      | some parent =>
+        match func parent x.2.2 acc.cur x.1 with
+        | none => fuseLoopM func s rest acc
+        | some a =>
+          fuseLoopM func s rest
+            { cur := a.node, fused := true,
+              selfc := if a.inplace && acc.isSelf then a.node else acc.selfc,
+              isSelf := a.inplace && acc.isSelf }
+
+def fuseNodeM (func : FuseFuncM) (counts : List Nat) (s : FuseSt) (n : Node) (ins : List (Name × Ref)) :
+    Except Err (FuseSt × Nat) :=
+  let c := counts.getD s.orig.length 0
+  let self : Node := { n with inputs := n.inputs.map fun x => (x.1, (s.orig.getD x.2.1 0, x.2.2)) }
+  let r := fuseLoopM func s ins { cur := self, fused := false, selfc := self, isSelf := true }
+  if r.fused then
+    if r.isSelf then
+      -- the original object itself is the (mutated) result
+      .ok ({ out := s.out ++ [r.cur], cnt := s.cnt ++ [c], orig := s.orig ++ [s.out.length] }, s.out.length)
+    else
+      .ok ({ out := s.out ++ [r.selfc, r.cur], cnt := s.cnt ++ [c, c], orig := s.orig ++ [s.out.length] }, s.out.length + 1)
+  else
+    .ok ({ out := s.out ++ [{ n with inputs := ins }], cnt := s.cnt ++ [c], orig := s.orig ++ [s.out.length] }, s.out.length)
+
+def fuserM (func : FuseFuncM) (counts : List Nat) : Transformer FuseSt Nat Ref where
+  node := some (fuseNodeM func counts)
+  output := fun s t o => nodeOutput s.out t o
+
+def fuseGraphM (func : FuseFuncM) (g : Graph) : Except Err Graph :=
+  transform (fuserM func (countEdges g.nodes)) (fun s sinks => .ok { nodes := s.out, sinks := sinks }) {} g
+
+/-- the harness' callback with in-place answers: `inplace parent pout cur cin` decides whether `cur` is mutated -/
+def inlineFuseM (accept inplace : Node → Name → Node → Name → Bool) : FuseFuncM := fun parent pout cur cin =>
+  (inlineFuse accept parent pout cur cin).map fun f => { node := f, inplace := inplace parent pout cur cin }
+
+/-! ## graph.py `Graph.__add__` and rename.py `join_namespaced` -/
+
+/-- a node of the second operand, its references re-pointed behind the first operand's nodes -/
+def shiftNode (b : Nat) (n : Node) : Node := { n with inputs := shiftIns b n.inputs }
+
+/-- `Graph.__add__`: `Graph(self.sinks + other.sinks)` (the node objects of both graphs, disjoint) -/
+def addGraphs (g1 g2 : Graph) : Graph :=
+  { nodes := g1.nodes ++ g2.nodes.map (shiftNode g1.nodes.length),
+    sinks := g1.sinks ++ g2.sinks.map (g1.nodes.length + ·) }
+
+/-- `rename_nodes(lambda n: f"{namespace}.{n}", graph)` -/
+def renameNs (p : Name × Graph) : Except Err Graph := renameGraph (prefixed p.1) p.2
+
+/-- `join_namespaced(**graphs)` = `reduce(add, (rename_nodes(...) for namespace, graph in graphs.items()))`;
+`reduce` of an empty sequence raises `TypeError`. -/
+def joinNamespaced : List (Name × Graph) → Except Err Graph
+  | [] => .error .noCallback
+  | p :: rest =>
+    match renameNs p with
+    | .error e => .error e
+    | .ok r =>
+      foldE (fun acc q => match renameNs q with | .error e => .error e | .ok r' => .ok (addGraphs acc r')) r rest
 
 end EkwVerif.Graph
